@@ -479,13 +479,23 @@ func (x *Exec) binop(st *State, op token.Token, a, b Term, ta, tb, tr types.Type
 				return not(mk(SBool, "sless", a, b))
 			}
 		}
-		return mk(SBool, map[token.Token]string{token.LSS: "<", token.LEQ: "<=", token.GTR: ">", token.GEQ: ">="}[op], a, b)
+		ops := map[token.Token]string{token.LSS: "<", token.LEQ: "<=", token.GTR: ">", token.GEQ: ">="}[op]
+		if f, ok := foldArith(ops, a, b); ok {
+			return f
+		}
+		return mk(SBool, ops, a, b)
 	case token.ADD:
 		if isStringType(ta) {
 			return mk(SStr, "sconcat", a, b)
 		}
+		if f, ok := foldArith("+", a, b); ok && !(x.contract != nil && x.contract.Safety["wrap64"]) {
+			return f
+		}
 		return x.wrapArith(mk(a.Sort, "+", a, b), tr)
 	case token.SUB:
+		if f, ok := foldArith("-", a, b); ok && !(x.contract != nil && x.contract.Safety["wrap64"]) {
+			return f
+		}
 		return x.wrapArith(mk(a.Sort, "-", a, b), tr)
 	case token.MUL:
 		return x.wrapArith(mk(a.Sort, "*", a, b), tr)
@@ -566,7 +576,7 @@ func (x *Exec) mapLookup(st *State, m, k Term, mt *types.Map) (Term, Term) {
 	mh := x.mapHeap(mt)
 	ks, vs := mh.ks, mh.vs
 	_, _ = ks, vs
-	has := sel(sel(x.heapGet(st, mh.has, arraySort(SInt, arraySort(ks, SBool))), m), k)
+	has := and(not(eq(m, intLit(0))), sel(sel(x.heapGet(st, mh.has, arraySort(SInt, arraySort(ks, SBool))), m), k))
 	val := sel(sel(x.heapGet(st, mh.val, arraySort(SInt, arraySort(ks, vs))), m), k)
 	v := ite(has, val, x.zero(mt.Elem()))
 	v = x.name(st, "mapval", v)
@@ -752,6 +762,12 @@ func (x *Exec) evalTypeAssert(e *ast.TypeAssertExpr, st *State) (Term, Term) {
 
 func (x *Exec) assertTo(st *State, v Term, to types.Type) (Term, Term) {
 	to = x.subst(types.Unalias(to))
+	if br, ok := x.boxInfo[v.S]; ok && !isInterface(to) {
+		if types.Identical(br.typ, to) {
+			return br.val, tTrue
+		}
+		return x.zero(to), tFalse
+	}
 	if isInterface(to) {
 		ok := and(not(eq(v, intLit(0))), mk(SBool, "implements", mk(SInt, "dyn", v), x.ctx.Tag("iface:"+typeTagString(to))))
 		if it, _ := to.Underlying().(*types.Interface); it != nil && it.Empty() {
